@@ -457,3 +457,13 @@ def run(facts, rep, ctx):
     _run_before_round6(facts, rep, ctx)
     from . import round6
     round6.cf2(facts, rep, ['alignment::poa::'], 50)
+
+
+_run_before_round7 = run
+
+
+def run(facts, rep, ctx):
+    """rules added in the sixth seeding round (rules/round7.py)"""
+    _run_before_round7(facts, rep, ctx)
+    from . import round7
+    round7.sz1(facts, rep)
